@@ -133,3 +133,21 @@ class Scripted(np.random.RandomState):
     def permutation(self, *a, **k):
         self._bad("permutation")
         return super().permutation(*a, **k)
+
+
+class MeanRegressor(RegressorMixin, BaseEstimator):
+    """Exact weighted square-loss minimiser over ALL functions of the discrete feature: the weighted mean per feature value."""
+
+    def fit(self, X, y, sample_weight=None):
+        x = np.asarray(X)[:, 0]
+        y = np.asarray(y, float).ravel()
+        w = np.ones(len(y)) if sample_weight is None else np.asarray(sample_weight, float).ravel()
+        self.table_ = {}
+        for v in np.unique(x):
+            m = x == v
+            self.table_[float(v)] = float(np.sum(w[m] * y[m]) / np.sum(w[m])) if np.sum(w[m]) > 0 else 0.0
+        return self
+
+    def predict(self, X):
+        x = np.asarray(X)[:, 0]
+        return np.array([self.table_.get(float(v), 0.0) for v in x], float)
